@@ -707,10 +707,10 @@ func (s *state) alterColumn(b *sqlx.Builder, alter *changeGroup, t *schema.Table
 func (s *state) alterType(b *sqlx.Builder, alter *changeGroup, t *schema.Table, c *schema.ModifyColumn) error {
 	// Commands for creating and dropping serial sequences.
 	createDropSeq := func(st *SerialType) (string, string, string) {
-		seq := fmt.Sprintf(`%s%q`, s.schemaPrefix(t.Schema), st.sequence(t, c.To))
+		seq := s.schemaPrefix(t.Schema) + quoteIdent(st.sequence(t, c.To))
 		drop := s.Build("DROP SEQUENCE IF EXISTS").P(seq).String()
 		create := s.Build("CREATE SEQUENCE IF NOT EXISTS").P(seq, "OWNED BY").
-			P(fmt.Sprintf(`%s%q.%q`, s.schemaPrefix(t.Schema), t.Name, c.To.Name)).
+			P(s.schemaPrefix(t.Schema) + quoteIdent(t.Name) + "." + quoteIdent(c.To.Name)).
 			String()
 		return create, drop, seq
 	}
@@ -1310,12 +1310,18 @@ func (s *state) typeIdent(ns *schema.Schema, name string) string {
 	// In case the plan uses a specific schema qualifier.
 	case s.SchemaQualifier != nil:
 		if *s.SchemaQualifier != "" {
-			return fmt.Sprintf("%q.%q", *s.SchemaQualifier, name)
+			return quoteIdent(*s.SchemaQualifier) + "." + quoteIdent(name)
 		}
 	case ns != nil && ns.Name != "":
-		return fmt.Sprintf("%q.%q", ns.Name, name)
+		return quoteIdent(ns.Name) + "." + quoteIdent(name)
 	}
-	return strconv.Quote(name)
+	return quoteIdent(name)
+}
+
+// quoteIdent quotes an SQL identifier: wrapped in double quotes, embedded double
+// quotes doubled. Unlike Go quoting (%q), nothing else is escaped.
+func quoteIdent(s string) string {
+	return `"` + strings.ReplaceAll(s, `"`, `""`) + `"`
 }
 
 // schemaPrefix returns the schema prefix based on the planner config.
@@ -1324,10 +1330,10 @@ func (s *state) schemaPrefix(ns *schema.Schema) string {
 	case s.SchemaQualifier != nil:
 		// In case the qualifier is empty, ignore.
 		if *s.SchemaQualifier != "" {
-			return fmt.Sprintf("%q.", *s.SchemaQualifier)
+			return quoteIdent(*s.SchemaQualifier) + "."
 		}
 	case ns != nil && ns.Name != "":
-		return fmt.Sprintf("%q.", ns.Name)
+		return quoteIdent(ns.Name) + "."
 	}
 	return ""
 }
